@@ -336,7 +336,8 @@ namespace Regatta.Props.C14
 
 /-- **the restore steps of the model are those of the current source**: `Manager.Restore`, read with
 go/parser on every run - its calls on the manager and its writes to the table record, in source
-order.  The model's calls transcribe them one by one: `restoreStart` = the name check and the first
+order, with the function's own identifiers renamed in order of declaration (x1 = the manager, x2 = name,
+x3 = reader, x4 = tbl, x5 = version, x6 = err, x7 = recoveryID), so that the fact does not depend on names.  The model's calls transcribe them one by one: `restoreStart` = the name check and the first
 `getTableVersion`; `createGetSeq` / `createSetSeq` (purpose `restore`) = `incAndGetIDSeq`;
 `restoreMark` = `Name := name`, `RecoverID := recoveryID`, `setTableVersion(tbl, version)` (the shard
 start before it and the wait and the load after it make no store call); `restoreReread` = the second
@@ -344,19 +345,19 @@ start before it and the wait and the load after it make no store call); `restore
 record's -, `RecoverID := 0`, `setTableVersion(tbl, version)`. -/
 theorem c14_restore_shape_matches_source :
     Regatta.Extracted.restoreShape =
-      ["call validTableName(name)",
-       "tbl,version,err <- m.getTableVersion(name)",
-       "recoveryID,err <- m.incAndGetIDSeq()",
-       "set tbl.Name = name",
-       "set tbl.RecoverID = recoveryID",
-       "err <- m.startTable(tbl.Name, tbl.RecoverID)",
-       "err <- m.setTableVersion(tbl, version)",
-       "err <- m.waitForLeader(tbl.RecoverID)",
-       "err <- m.readIntoTable(tbl.RecoverID, reader)",
-       "tbl,version,err <- m.getTableVersion(name)",
-       "set tbl.ClusterID = recoveryID",
-       "set tbl.RecoverID = 0",
-       "err <- m.setTableVersion(tbl, version)"] := by
+      ["call validTableName(x2)",
+       "x4,x5,x6 <- x1.getTableVersion(x2)",
+       "x7,x6 <- x1.incAndGetIDSeq()",
+       "set x4.Name = x2",
+       "set x4.RecoverID = x7",
+       "x6 <- x1.startTable(x4.Name, x4.RecoverID)",
+       "x6 <- x1.setTableVersion(x4, x5)",
+       "x6 <- x1.waitForLeader(x4.RecoverID)",
+       "x6 <- x1.readIntoTable(x4.RecoverID, x3)",
+       "x4,x5,x6 <- x1.getTableVersion(x2)",
+       "set x4.ClusterID = x7",
+       "set x4.RecoverID = 0",
+       "x6 <- x1.setTableVersion(x4, x5)"] := by
   decide
 
 end Regatta.Props.C14
